@@ -225,6 +225,12 @@ def opIp (kind : String) (fields : List String) : String :=
       | [w, v] => some ⟨natOf w, natOf v⟩
       | _ => none)
     toString (if addrs.any isReserved then Status.error else Status.pass)
+  | "iplint-cn", [a, _spelling] =>
+    -- the common-name lint: `net.ParseIP(cn)` is done by the harness ("-" = not an address literal)
+    if a == "-" then toString Status.pass else
+    match a.splitOn ":" with
+    | [w, v] => toString (if isReserved ⟨natOf w, natOf v⟩ then Status.error else Status.pass)
+    | _ => "bad-op"
   | "iplint-nc", [ns] =>
     let nets : List Net := (splitList ns ",").filterMap (fun a => match a.splitOn ":" with
       | [w, v, p] => some ⟨⟨natOf w, natOf v⟩, natOf p⟩
@@ -590,6 +596,7 @@ def step (line : String) : String :=
   | "ipcont" :: rest => opIp "ipcont" rest
   | "iplint-san" :: rest => opIp "iplint-san" rest
   | "iplint-nc" :: rest => opIp "iplint-nc" rest
+  | "iplint-cn" :: rest => opIp "iplint-cn" rest
   | "rsa" :: rest => opRsa rest
   | "fermat" :: rest => opFermat rest
   | "tld" :: rest => opTld "tld" rest
